@@ -4,6 +4,7 @@ import (
 	"fmt"
 	"go/token"
 	"go/types"
+	"regexp"
 	"sort"
 	"strings"
 
@@ -339,15 +340,22 @@ func checkC18(r *Run) {
 				}
 			}
 			gs := P.Guards(ret, 2)
+			rv := P.TermAt(ret.Results[0], ret).String()
+			// the big.Int wrapped by the returned Int / Uint / Dec literal: the range test must be on that very value
+			inner := ""
+			if m := regexp.MustCompile(`^complit:types\.(?:Int|Uint|Dec)\{(?:Int|i)=(.*)\}$`).FindStringSubmatch(rv); m != nil {
+				inner = m[1]
+			}
 			ok := false
 			for _, a := range gs {
 				k := a.Key()
-				if reMatch(`^!\(\d+ < `+bitlen, k) || reMatch(`^!\(\(\d+ \+ \d+\) < `+bitlen, k) || reMatch(`^!\(.*maxBitLen.* < `+bitlen, k) {
-					ok = true
+				if m := regexp.MustCompile(`^!\((255|256|315|\(255 \+ 60\)|.*maxBitLen.*) < ` + bitlen + `(.*)\)\)$`).FindStringSubmatch(k); m != nil {
+					if inner == "" || m[2] == inner || a.Via != "" {
+						ok = true
+					}
 				}
 			}
 			// or the returned value comes straight from a checking constructor
-			rv := P.TermAt(ret.Results[0], ret).String()
 			if strings.HasPrefix(rv, "types.NewIntFromBigInt(") || strings.HasPrefix(rv, "types.checkNewUint(") || strings.HasPrefix(rv, "types.NewUintFromBigInt(") ||
 				strings.HasPrefix(rv, "(types.Int).Add(") || strings.HasPrefix(rv, "(types.Int).Sub(") || strings.HasPrefix(rv, "(types.Int).Mul(") ||
 				strings.HasPrefix(rv, "(types.Uint).Add(") || strings.HasPrefix(rv, "(types.Uint).Sub(") || strings.HasPrefix(rv, "(types.Uint).Mul(") {
